@@ -6,7 +6,10 @@ from check import slice_bytes
 
 TEST = '''package bitvector
 
-import "testing"
+import (
+	"math/rand"
+	"testing"
+)
 
 func TestVerifReplay(t *testing.T) {
 	b := []byte{%(b)s}
@@ -34,15 +37,45 @@ func TestVerifReplay(t *testing.T) {
 		c[j/8] &^= 1 << uint(j%%8)
 		if try(c, l) { return }
 	}
+	// random operation sequences against a []bool model (vectors over backing slices longer than
+	// needed included); byte masks that clear bits already clear and set bits already set
+	rnd := rand.New(rand.NewSource(39))
+	for trial := 0; trial < 60; trial++ {
+		l := 1 + rnd.Intn(70)
+		back := make([]byte, (l+7)/8+rnd.Intn(3))
+		bv, err := NewFromBytes(back, l)
+		if err != nil { continue }
+		model := make([]bool, l)
+		for step := 0; step < 30; step++ {
+			switch rnd.Intn(4) {
+			case 0:
+				i := rnd.Intn(l); bv.Set(i); model[i] = true
+			case 1:
+				i := rnd.Intn(l); bv.Unset(i); model[i] = false
+			case 2, 3:
+				m := make([]byte, len(bv.Bytes()))
+				for i := range m { m[i] = byte(rnd.Intn(256)) }
+				var err error
+				if rnd.Intn(2) == 0 { err = bv.SetBytes(m) } else { err = bv.UnsetBytes(m); if err == nil { for j := 0; j < l; j++ { if m[j/8]&(1<<uint(j%%8)) != 0 { model[j] = false } } } ; goto check }
+				if err == nil { for j := 0; j < l; j++ { if m[j/8]&(1<<uint(j%%8)) != 0 { model[j] = true } } }
+			}
+		check:
+			for j := 0; j < l; j++ {
+				if bv.Get(j) != model[j] {
+					t.Logf("REPLAY-CONFIRMED after a sequence of set / unset / byte-mask operations on a vector of %%d bits over %%d bytes, bit %%d reads %%v, the boolean-array model says %%v", l, len(back), j, bv.Get(j), model[j]); return
+				}
+			}
+		}
+	}
 	t.Logf("not reproduced")
 }
 '''
 
 def build(unit, obl, vals):
-    if "Equals" not in unit:
-        return None
-    b = slice_bytes(vals, "bv.b") or []
-    l = vals.get("bv.len")
-    if not isinstance(l, int) or len(b) > 4096:
-        return None
+    # the solver's vector when it gives one (Equals refutations), else a default one; the
+    # model-based part of the battery does not depend on it
+    b = slice_bytes(vals or {}, "bv.b") or []
+    l = (vals or {}).get("bv.len")
+    if not isinstance(l, int) or not b or len(b) > 4096 or l <= 0 or l > 8 * len(b):
+        b, l = [255, 1], 9
     return {"pkg": "pkg/bitvector", "test": TEST % {"b": ", ".join(map(str, b)), "l": l}}
